@@ -724,6 +724,21 @@ def generate():
     L.append("def ColoquinteParameters.ofList (l : List Rat) : ColoquinteParameters :=")
     L.append("  " + reader("ColoquinteParameters"))
     L.append("")
+    def writer(rec, obj):
+        parts = []
+        for (n, k, t) in ctx.records[rec]:
+            if k == "S":
+                parts += writer(t, obj + "." + n)
+            elif k == "D":
+                parts.append("%s.%s" % (obj, n))
+            elif k in ("I", "E"):
+                parts.append("(%s.%s : Rat)" % (obj, n))
+            else:
+                parts.append("(if %s.%s then 1 else 0)" % (obj, n))
+        return parts
+    L.append("def ColoquinteParameters.toList (p : ColoquinteParameters) : List Rat :=")
+    L.append("  [" + ", ".join(writer("ColoquinteParameters", "p")) + "]")
+    L.append("")
     L.append("/-- `check()` of the record called `name`, on the sub-object of `p` it belongs to -/")
     L.append("def checkItemsOf (p : ColoquinteParameters) : String → Option (List (Bool × String))")
     for (rec, path) in struct_paths("ColoquinteParameters", ctx):
